@@ -5,6 +5,7 @@ Model construction from parse trees and the model API.
 from __future__ import annotations
 
 import traceback
+from bisect import bisect
 from collections import OrderedDict
 from collections.abc import Callable
 from contextlib import suppress
@@ -1097,6 +1098,9 @@ class ReferenceResolver:
         self.model = model
         self.pos_crossref_list = pos_crossref_list  # tool support
         self.delayed_crossrefs = []
+        # Positions of the already resolved references of each list attribute.
+        # Used to keep the textual order if some references get postponed.
+        self._resolved_positions = {}
 
     def has_unresolved_crossrefs(self, obj, attr_name=None):
         """
@@ -1203,7 +1207,15 @@ class ReferenceResolver:
                 else:
                     resolved_crossref_count += 1
                     if attr.mult in [MULT_ONEORMORE, MULT_ZEROORMORE]:
-                        attr_value.append(resolved)
+                        # Insert in the textual order of the references. A
+                        # plain append would reorder the list if an earlier
+                        # reference is postponed.
+                        positions = self._resolved_positions.setdefault(
+                            (id(obj), attr.name), []
+                        )
+                        idx = bisect(positions, crossref.position)
+                        positions.insert(idx, crossref.position)
+                        attr_value.insert(idx, resolved)
                     else:
                         setattr(obj, attr.name, resolved)
             else:  # crossref not in model
